@@ -37,13 +37,13 @@ def run(ctx):
     U = I["utility"]
     rng = ctx.rng
     q = ctx.tier == "quick"
-    n_hist = 16 if q else 80
+    n_hist = 5 if q else 12          # per worker process (quick: 4 workers, thorough: 8)
     for h in range(n_hist):
         nprng = np.random.RandomState(rng.randrange(2 ** 31))
         # shared pool of datasets
         datasets = []
         for d in range(rng.randint(2, 3)):
-            n = rng.randint(3, 5)
+            n = rng.randint(3, 4 if q else 5)
             X = np.round(nprng.randn(n, 2), 3)
             X[:, 1] = (X[:, 1] > 0).astype(float)           # a binary 'sensitive' column (used by the equalized-odds utility)
             y = np.array([i % 2 for i in range(n)])
@@ -83,7 +83,9 @@ def run(ctx):
         before = snap(watched)
         methods = [rng.choice(["neighbor", "neighborK", "bruteforce", "montecarlo"]) for _ in range(rng.randint(1, 3))]
         if util_kind == "eqodds":
-            methods[0] = "bruteforce"           # the metric path of this utility (groupings derived from the validation features) is used by bruteforce/montecarlo
+            # the metric path of this utility (groupings derived from the validation features) is used by bruteforce; montecarlo is left out because
+            # its mean_score subsamples half of the (tiny) validation set, which this utility rejects when only one class is drawn
+            methods = ["bruteforce"] + [mth if mth != "montecarlo" else "neighbor" for mth in methods[1:]]
 
         def make(method, utility=None):
             kw = {}
@@ -161,7 +163,7 @@ def run(ctx):
         ctx.maxi(ops=len(ops))
         for mth in methods:
             ctx.dist["method=" + mth] += 1
-        if ctx.elapsed() > (100 if q else 900):
+        if ctx.elapsed() > (600 if q else 2400):
             break
     return ctx.finish("other", "Partial by nature. Proved for the model (C20_score_pure, C20_last_fit_wins, C20_repeat, C20_independent): fit/score as a state machine in "
                       "which score leaves the state unchanged and its result depends only on the last fit. Aliasing and in-place writes into caller-owned buffers are not "
